@@ -547,3 +547,9 @@ def run(index, rep, tier):
                     rep.check(not hashed, "R01.19", fi.qualname, "`%s` looks the query up by hash" % norm(x)[:60], fn_where(fi, x), "%s: `%s` scans a sequence" % (fi.name, norm(x)[:50]),
                               "%s evaluates `%s`: the container is keyed by bipartitions, so the test hashes the caller's object, and Bipartition.__hash__ asserts `not self.is_mutable` - for a query built with Bipartition(...) defaults or namespace.taxa_bipartition() (both mutable) the compatibility predicate raises AssertionError: Bipartition is mutable" % (fi.qualname, norm(x)[:60]))
         rep.floor("R01.19", "membership tests on a bipartition parameter", 1, n19)
+
+    # ---- R01.20 leafset bits are decoded the way they were encoded
+    with rep.section("R01.20"):
+        rep.rule("R01.20", "leafset bits are decoded the way they were encoded (C10 R10.18): Bipartition.leafset_taxa() and the bitmask renderers go through TaxonNamespace methods that turn a bit into a taxon by its accession index, never by list position - otherwise, on a sorted or reversed namespace or one with a removed member, the taxa a leafset bitmask is SAID to contain are not the taxa on the leaves below the edge")
+        nb = borrow(index, rep, "C10", {"R10.18"}, "R01.20")
+        rep.floor("R01.20", "borrowed obligations", 1, nb)
